@@ -13,16 +13,27 @@ LEVEL = "other"
 
 
 # ------------------------------------------------------------------------------------------------ C08-d quaternion sign
+def negated_edge(it, cfg, p1, p2, z, off, group):
+    from ..interp import Pose
+
+    def neg(p):
+        return Pose(p.cls, list(p.data[:3]) + [-x for x in p.data[3:7]])
+    ps = dict(p1=p1, p2=p2, z=z, off=off)
+    ps[group] = neg(ps[group])
+    return make_edge(it, cfg, ps["p1"], ps["p2"], ps["z"], ps["off"])
+
+
 def parity_obligation(cfg, group):
     """chi^2 is invariant under q_g -> -q_g for every symmetric information matrix iff all error components have one parity."""
     def fn(it):
         p1, p2, z, off = sym_config(cfg, unit=True)
         e = make_edge(it, cfg, p1, p2, z, off)
         err = it.call_method(e, "calc_error", [])
-        neg = {"%s[%d]" % (group, i): -Poly.var("%s[%d]" % (group, i)) for i in (3, 4, 5, 6)}
+        # the same edge with the quaternion of `group` negated is *re-interpreted* (not substituted into the result), so that
+        # sign-dependent branches (canonicalisation by the sign of w, ...) take the branch they would really take for -q
+        err_neg = it.call_method(negated_edge(it, cfg, p1, p2, z, off, group), "calc_error", [])
         par = []
-        for comp in err.data:
-            f = comp.subs(neg)
+        for comp, f in zip(err.data, err_neg.data):
             par.append("even" if f == comp else "odd" if f == -comp else "mixed")
         kinds = set(par)
         if "mixed" in kinds or len(kinds - {"even"}) and len(kinds) > 1:
@@ -40,10 +51,10 @@ def jacobian_parity_obligation(cfg, group):
         p1, p2, z, off = sym_config(cfg, unit=True)
         e = make_edge(it, cfg, p1, p2, z, off)
         J = it.call_method(e, "calc_jacobians", [])
-        neg = {"%s[%d]" % (group, i): -Poly.var("%s[%d]" % (group, i)) for i in (3, 4, 5, 6)}
+        Jn = it.call_method(negated_edge(it, cfg, p1, p2, z, off, group), "calc_jacobians", [])
         out = []
         for k in (0, 1):
-            same = all(x.subs(neg) == x for x in J[k].flat())
+            same = isinstance(Jn[k], Arr) and Jn[k].shape == J[k].shape and all(x == y for x, y in zip(Jn[k].flat(), J[k].flat()))
             out.append(same)
             if not same:
                 raise ObFail("negating the quaternion of %s changes the Jacobian w.r.t. vertex %d" % (group, k))
@@ -181,7 +192,7 @@ def id_taint_rule(run_, pkg):
                 run_.violation("C08-a/%s/id-use@attrgetter" % qual, "C08-a-ids-are-names",
                                "a vertex id is used as the sort key `%s`: results depend on how vertices are numbered" % ast.unparse(node.value)[:60],
                                where="%s:%d" % (fn._gs_module, node.value.lineno))
-    run_.floor("uses of vertex ids", n_uses, 8)
+    run_.floor("uses of vertex ids", n_uses, 4)
 
 
 def is_id_seq(e, tainted):
